@@ -163,7 +163,7 @@ fn sym(m: &Model, ctx: &mut Ctx) {
             }
         }
     }
-    ctx.floor("C02.sym/decisions-over-ASN1Type", n_matches, 60);
+    ctx.floor("C02.sym/decisions-over-ASN1Type", n_matches, 45);
 }
 
 fn order(m: &Model, ctx: &mut Ctx) {
@@ -222,7 +222,7 @@ fn order(m: &Model, ctx: &mut Ctx) {
                 &format!("`{}.{}` in `{}` applies {:?} to a component list: every component must be kept exactly once, in source order", root, names.join("."), f.key, bad));
         }
     }
-    ctx.floor("C02.order/component-list-chains", chains, 40);
+    ctx.floor("C02.order/component-list-chains", chains, 30);
 }
 
 fn quote_ident(body: &str) -> String {
